@@ -1,3 +1,101 @@
-From Thunder Require Import Lib.Json Gql.Types Gql.Value Gql.Query Gql.Ref Gql.Exec.
-Theorem placeholder : True. Proof. exact I. Qed.
-Print Assumptions placeholder.
+(** C01: execution equals the sequential reference semantics under any scheduling and execution mode.
+    Statements only; proofs are in Gql/ProofsSched.v, Gql/ProofsSplit.v. *)
+From Coq Require Import List String Bool Arith Permutation ZArith.
+From Thunder Require Import Lib.Json Gql.Types Gql.Value Gql.Query Gql.Ref Gql.Exec Gql.ProofsSched Gql.ProofsSplit.
+Import ListNotations.
+Open Scope string_scope.
+Open Scope list_scope.
+
+(** For every schema, state and schedule (any list of choices, any length): once no unit is pending,
+    the output nodes filled are exactly those of the forest of work units under the initial units
+    ([P u r]: the forest under [u] fills and raises [r]), and the error recorder holds nothing iff the
+    forest raises nothing, otherwise one of the failures it raises. *)
+Theorem schedule_independence : forall Q S fuel st0 rs,
+  Forall2 (P Q S fuel) (st_pending st0) rs -> st_err st0 = None ->
+  forall sched, complete (run_sched Q S fuel sched st0) = true ->
+    Permutation (st_heap (run_sched Q S fuel sched st0)) (st_heap st0 ++ heaps rs) /\
+    match st_err (run_sched Q S fuel sched st0) with
+    | None => errs rs = []
+    | Some e => In e (errs rs)
+    end.
+Proof. exact ProofsSched.schedule_independence. Qed.
+Print Assumptions schedule_independence.
+
+(** Hence what Execute returns is the same for every schedule: the same JSON when nothing fails, an
+    error (and no data) otherwise.  [NoDup]: each output node is filled by one unit only. *)
+Theorem result_independent_of_schedule : forall Q S fuel rf st0 rs,
+  Forall2 (P Q S fuel) (st_pending st0) rs -> st_err st0 = None ->
+  NoDup (map fst (st_heap st0 ++ heaps rs)) ->
+  forall sched, complete (run_sched Q S fuel sched st0) = true ->
+    match errs rs with
+    | [] => finish rf (run_sched Q S fuel sched st0)
+            = Some (ROk (JObj (map (fun k => (k, render rf (st_heap st0 ++ heaps rs) [PKey k])) (st_top st0))))
+    | _ => exists e, In e (errs rs) /\ finish rf (run_sched Q S fuel sched st0) = Some (RErr e)
+    end.
+Proof. exact ProofsSched.result_independent_of_schedule. Qed.
+Print Assumptions result_independent_of_schedule.
+
+(** splitToNWorkUnits (any requested number of units, clamped as the code does) and splitWorkUnit
+    keep the zipped (source, destination) pairs: a permutation of the original unit's. *)
+Theorem split_to_n_pairs : forall u n, Permutation (flat_map u_items (split_to_n u n)) (u_items u).
+Proof. exact ProofsSplit.split_to_n_pairs. Qed.
+Print Assumptions split_to_n_pairs.
+
+Theorem split_work_unit_pairs : forall u, flat_map u_items (split_work_unit u) = u_items u.
+Proof. exact ProofsSplit.split_work_unit_items. Qed.
+Print Assumptions split_work_unit_pairs.
+
+(* FULL STATEMENT, not yet proved (the executable model is tested against it on every run by
+   Gql/Check.v component 1 = component 2, and against the implementation):
+
+   Theorem execution_equals_reference : forall S q root fuel sched,
+     snd (eval_ref S fuel q root) = [] ->          (* valid query, complete data, no failing resolver, enough fuel *)
+     complete (run_sched fixed S fuel sched st0) = true ->   (* where init fixed S q root = inl st0 *)
+     run fixed S fuel sched q root = Some (ROk (fst (eval_ref S fuel q root)))   (* up to key order *)
+
+   What is proved above: independence of the schedule (all schedules, unbounded) relative to the forest
+   of units, and the splitting lemmas.  What is missing: (a) the forest of the initial units, rendered,
+   equals eval_ref (batch resolution over n sources = n single-source resolutions; one-level unfolding
+   of eval_ref), which also gives the NoDup hypothesis; (b) termination: the forest is finite for every
+   valid query (hypothesis [Forall2 P ...] above is stated per case and checked by vm_compute in the
+   Example). *)
+
+(** The hypotheses are satisfiable by a non-trivial state: a list of keyed objects with a batch field
+    split in two, a plain function field and a union. *)
+Definition ex_schema : schema :=
+  mk_schema
+    [mk_object "Query" [mk_field "as" (TList (TObject "A")) false false true false None;
+                        mk_field "u" (TUnion "U") false true true false None] None;
+     mk_object "A" [mk_field "id" (TScalar "int64") false false false false None;
+                    mk_field "x" (TScalar "int64") true false true true (Some [1; 1; 2; 2]);
+                    mk_field "b" (TObject "A") false false true false None] (Some "id")]
+    [mk_union "U" ["A"]] "Query".
+Definition ex_a1 := VObj "A" [("id", OOk (VLeaf (JNum 1%Z))); ("x", OOk (VLeaf (JNum 10%Z))); ("b", OOk VNull)].
+Definition ex_a2 := VObj "A" [("id", OOk (VLeaf (JNum 2%Z))); ("x", OOk (VLeaf (JNum 20%Z))); ("b", OOk ex_a1)].
+Definition ex_root := VObj "Query" [("as", OOk (VList [ex_a1; ex_a2; ex_a1])); ("u", OOk ex_a1)].
+Definition ex_query : squery :=
+  mk_squery "" 1
+    (SCons (SField "as" "as" "as" [] (Some (2, SCons (SField "x" "x" "x" [] None)
+             (SCons (SField "b" "b" "b" [] (Some (3, SCons (SField "id" "id" "id" [] None) SNil))) SNil))))
+    (SCons (SField "u" "u" "u" [] (Some (4, SCons (SInline "A" [] 5 (SCons (SField "id" "id" "id" [] None) SNil))
+             (SCons (SInline "A" [] 6 (SCons (SField "x" "x" "x" [] None) SNil)) SNil)))) SNil)) [].
+
+Example hypotheses_satisfiable :
+  exists st0 rs ss,
+    parse [] ex_query = Some ss /\ init fixed ex_schema ss ex_root = inl st0 /\
+    List.length (st_pending st0) = 2 /\
+    Forall2 (P fixed ex_schema 40) (st_pending st0) rs /\ st_err st0 = None /\
+    NoDup (map fst (st_heap st0 ++ heaps rs)) /\ errs rs = [] /\
+    List.length (heaps rs) = 19.
+Proof.
+  destruct (parse [] ex_query) as [ss|] eqn:Ep; [|vm_compute in Ep; discriminate].
+  destruct (init fixed ex_schema ss ex_root) as [st0|e] eqn:Ei;
+    [|vm_compute in Ep; inversion Ep; subst; vm_compute in Ei; discriminate].
+  vm_compute in Ep. inversion Ep; subst ss. vm_compute in Ei. inversion Ei; subst st0. clear Ep Ei.
+  eexists. eexists. eexists. split; [reflexivity|]. split; [reflexivity|]. split; [reflexivity|].
+  split.
+  { constructor; [exists 6; vm_compute; reflexivity|].
+    constructor; [exists 6; vm_compute; reflexivity|]. constructor. }
+  split; [reflexivity|]. split; [|split; reflexivity].
+  vm_compute. repeat (constructor; [simpl; intuition discriminate|]). constructor.
+Qed.
